@@ -420,4 +420,6 @@ def layout_programs():
     P.append(("det-root-middle", "packet Logon {\n    string user,\n}\nroot packet Frame {\n    u8 K,\n    match K as Body {\n        1 : Logon,\n        2 : Logout,\n    },\n    Tail,\n}\npacket Logout {\n    u16 reason,\n}\npacket Tail {\n    u32 crc,\n}\n"))
     # a NON-root packet with several match fields on different keys, declared BEFORE its target packets
     P.append(("det-nonroot-matches", "packet Frame {\n    u8 HK,\n    u8 BK,\n    u8 TK,\n    match HK as Hdr {\n        1 : HdrA,\n        2 : HdrB,\n    },\n    match BK as Body {\n        1 : BodyA,\n        2 : BodyB,\n    },\n    match TK as Trl {\n        1 : TrlA,\n    },\n}\npacket HdrA {\n    u8 a,\n}\npacket HdrB {\n    u16 b,\n}\npacket BodyA {\n    u32 c,\n}\npacket BodyB {\n    u64 d,\n}\npacket TrlA {\n    u8 e,\n}\nroot packet Msg {\n    Frame,\n    u8 x,\n}\n"))
+    # identifiers that look like (non-keyword) type names or collide with table keys of a generator
+    P.append(("det-type-like-names", "packet u128 {\n    u8 a,\n}\nroot packet Msg {\n    u8 k,\n    u24 {\n        u8 Hi,\n        u16 Lo,\n    },\n    repeat i24 {\n        u32 q,\n    },\n    u128,\n    u16 float32x,\n    string s,\n}\n"))
     return P
